@@ -21,7 +21,8 @@ LEVEL_NOTE = ("the polar branch (cos phi' == 0 exactly) is unreachable in binary
               "np.genfromtxt parsing and libm are covered by correspondence only")
 TECHNIQUE = "hand model + reflection (Poly over Q) + pysym whole-pipeline terms for float correspondence + independent NumPy series"
 RULE = ("lat in [-90,90] incl. the poles and 90-1e-3..1e-12, lon in [-180,180] incl. the ends, h in [-1,850] km incl. the ends, "
-        "dates on the 0.1-year grid 2015.0..2030.0 incl. 2020.0 and 2025.0 and off-grid dates next to them; the official test "
+        "dates on the 0.1-year grid 2015.0..2030.0 incl. 2020.0 and 2025.0 and off-grid dates next to them; every point also through "
+        "the other documented entry forms (constructor, height omitted on fresh/reused objects, positional, keyword, int/date dates); the official test "
         "tables; a case is non-trivial when the field is non-zero (always); distinct = distinct rounded input")
 TRUSTED = ["Coq 8.16.1 kernel; vm_compute (polynomial normal forms over Q; the float copies)",
            "hand model coq/model/C14_wmm.v tied to wmm.py by the float correspondence (bit-faithful operation order, "
@@ -138,15 +139,55 @@ STAGES = [['C14_poly.v', 'C14_data.v'], ['C14_synth.v'], ['C14.v']]
 # ------------------------------------------------------------------------------------------------
 # implementation entry points
 # ------------------------------------------------------------------------------------------------
-def impl_field(lat, lon, h, date, frame='NED', prev=None):
-    """fresh object, explicit date: the object-state defects of C15 cannot interfere.  `prev` = arguments of an earlier
-    call on the same object (also with an explicit date)"""
+FORMS = ('method', 'ctor', 'ctor-pos', 'noheight', 'noheight-reused', 'positional', 'keyword', 'bare')
+
+
+def impl_field(lat, lon, h, date, frame='NED', prev=None, form='method', full=False):
+    """the documented ways of asking for the field at (date, lat, lon, h); every call carries an explicit date.
+    method          WMM(date, 0, 0).magnetic_field(lat, lon, h, date=date)           (after `prev`, if given)
+    ctor / ctor-pos WMM(date=, latitude=, longitude=, height=, frame=) / the same positionally, then .X .Y .Z
+    noheight        fresh WMM(date=date).magnetic_field(lat, lon, date=date): documented default height 0
+    noheight-reused the same after a call at another height on the same object (`prev`, or 600 km)
+    positional      WMM().magnetic_field(lat, lon, h, date)   (date positional, object built with no argument)
+    keyword         magnetic_field(latitude=, longitude=, height=, date=)
+    bare            WMM() (today's date, Munich) then magnetic_field(lat, lon, h, date=date)
+    Returns X, Y, Z (with full=True also a description of what else the object reports inconsistently: .magnetic_elements,
+    .geodetic_vector, the stored position)."""
     from ahrs.utils.wmm import WMM
-    w = WMM(date=date, latitude=0.0, longitude=0.0, frame=frame)
-    if prev is not None:
-        w.magnetic_field(prev[0], prev[1], prev[2], date=prev[3])
-    w.magnetic_field(lat, lon, h, date=date)
-    return np.array([w.X, w.Y, w.Z], dtype=float)
+    hh = h
+    if form == 'ctor':
+        w = WMM(date=date, latitude=lat, longitude=lon, height=h, frame=frame)
+    elif form == 'ctor-pos':
+        w = WMM(date, lat, lon, h, frame)
+    elif form in ('noheight', 'noheight-reused'):
+        w = WMM(date=date, frame=frame)
+        if form == 'noheight-reused':
+            pv = prev if prev is not None else [lat, lon, 600.0, date]
+            w.magnetic_field(pv[0], pv[1], pv[2] if pv[2] else 600.0, date=pv[3])
+        w.magnetic_field(lat, lon, date=date)
+        hh = 0.0
+    elif form == 'positional':
+        w = WMM(frame=frame) if frame != 'NED' else WMM()
+        w.magnetic_field(lat, lon, h, date)
+    elif form == 'keyword':
+        w = WMM(date=date, latitude=0.0, longitude=0.0, frame=frame)
+        w.magnetic_field(latitude=lat, longitude=lon, height=h, date=date)
+    elif form == 'bare':
+        w = WMM(frame=frame) if frame != 'NED' else WMM()
+        w.magnetic_field(lat, lon, h, date=date)
+    else:
+        w = WMM(date=date, latitude=0.0, longitude=0.0, frame=frame)
+        if prev is not None:
+            w.magnetic_field(prev[0], prev[1], prev[2], date=prev[3])
+        w.magnetic_field(lat, lon, h, date=date)
+    out = np.array([w.X, w.Y, w.Z], dtype=float)
+    me = w.magnetic_elements
+    note = None
+    if [me['X'], me['Y'], me['Z']] != [w.X, w.Y, w.Z] or list(w.geodetic_vector) != [w.X, w.Y, w.Z]:
+        note = 'magnetic_elements / geodetic_vector differ from X, Y, Z'
+    elif float(w.height) != float(hh) or float(w.latitude) != float(lat) or float(w.longitude) != float(lon):
+        note = f'object reports position ({w.latitude}, {w.longitude}, {w.height}), asked for ({lat}, {lon}, {hh})'
+    return (out, note) if full else out
 
 
 def _hx(x):
@@ -462,7 +503,8 @@ def _region(lat, date):
 def o_field(inp):
     """X, Y, Z of WMM().magnetic_field equal the independent series.  The arguments are handed over exactly as given
     (Python ints stay ints); optional: frame='ENU' (components are then east, north, up), prev=[lat, lon, h, date] of an
-    earlier call on the same object, date as [y, m, d] for a datetime.date"""
+    earlier call on the same object, date as [y, m, d] for a datetime.date, form = one of FORMS (see impl_field): the
+    question may be asked through the constructor, with the height omitted (documented default 0), positionally, by keyword"""
     lat, lon, h = inp['lat'], inp['lon'], inp['h']
     date = inp['date']
     if isinstance(date, (list, tuple)):
@@ -471,12 +513,14 @@ def o_field(inp):
     else:
         dd, dec = date, float(date)
     frame = inp.get('frame', 'NED')
-    reg = _region(float(lat), dec) + ('' if frame == 'NED' else '+enu') + ('+second-call' if inp.get('prev') else '')
-    io = call_outcome(impl_field, lat, lon, h, dd, frame, inp.get('prev'))
+    form = inp.get('form', 'method')
+    reg = (_region(float(lat), dec) + ('' if frame == 'NED' else '+enu') + ('+second-call' if inp.get('prev') else '')
+           + ('' if form == 'method' else '+' + form))
+    io = call_outcome(impl_field, lat, lon, h, dd, frame, inp.get('prev'), form, True)
     if io[0] == 'raise':
         return {'tag': f'magnetic_field/raises-{io[1]}@{reg}', 'observed': list(io[1:])}
-    got = io[1]
-    exp, c = spec_field(float(lat), float(lon), float(h), dec)
+    got, state_note = io[1]
+    exp, c = spec_field(float(lat), float(lon), 0.0 if form.startswith('noheight') else float(h), dec)
     if frame.upper() == 'ENU':
         exp = np.array([exp[1], exp[0], -exp[2]])
     B = float(np.linalg.norm(exp))
@@ -489,6 +533,8 @@ def o_field(inp):
     for i, nm in enumerate('XYZ'):
         if abs(got[i] - exp[i]) > tol:
             return {'tag': f'magnetic_field/{nm}-differs@{reg}', 'observed': got, 'expected': exp, 'note': f'tolerance {tol:.3g} nT'}
+    if state_note:
+        return {'tag': f'magnetic_field/object-reports-other-question@{reg}', 'observed': state_note}
     return None
 
 
@@ -549,20 +595,31 @@ def _wrap(f, inp):
 
 
 def search(ctx, scale):
-    n = 1500 * scale
-    for (lat, lon, h, date) in gen_cases(ctx.rng, n):
+    n = 1000 * scale
+    alt = FORMS[1:]
+    for i, (lat, lon, h, date) in enumerate(gen_cases(ctx.rng, n)):
         inp = {'lat': lat, 'lon': lon, 'h': h, 'date': date}
-        ctx.check('field', inp, _wrap(o_field, inp), nontrivial_key=(round(float(lat), 6), round(float(lon), 6), round(float(h), 3), date))
+        key = (round(float(lat), 6), round(float(lon), 6), round(float(h), 3), date)
+        ctx.check('field', inp, _wrap(o_field, inp), nontrivial_key=key)
+        # the same question through the other documented entry forms: all of them on the thin-region cases, one each elsewhere
+        for form in (alt if i < 70 else (alt[i % len(alt)],)):
+            inp2 = dict(inp, form=form)
+            if i % 5 == 0:
+                inp2['frame'] = 'ENU'
+            if float(date) == int(float(date)) and i % 2 == 0:
+                inp2['date'] = int(float(date))              # integer date form
+            ctx.check('field', inp2, _wrap(o_field, inp2), nontrivial_key=key + (form,))
     cs = gen_cases(ctx.rng, 40)
     for i, (lat, lon, h, date) in enumerate(cs[:40]):
         inp = {'lat': lat, 'lon': lon, 'h': h, 'date': date, 'frame': 'ENU' if i % 2 == 0 else 'enu'}
         ctx.check('field', inp, _wrap(o_field, inp), nontrivial_key=('enu', i))
         inp = {'lat': lat, 'lon': lon, 'h': h, 'date': date, 'prev': list(cs[(7 * i + 3) % len(cs)])}
         ctx.check('field', inp, _wrap(o_field, inp), nontrivial_key=('second', i))
-    for ymd in ((2015, 1, 1), (2017, 5, 12), (2019, 6, 30), (2020, 1, 1), (2024, 3, 1), (2025, 1, 2), (2029, 7, 1)):
-        inp = {'lat': float(ctx.rng.uniform(-90, 90)), 'lon': float(ctx.rng.uniform(-180, 180)), 'h': float(ctx.rng.uniform(-1, 850)),
-               'date': list(ymd)}
-        ctx.check('field', inp, _wrap(o_field, inp), nontrivial_key=ymd)
+    for j, ymd in enumerate(((2015, 1, 1), (2017, 5, 12), (2019, 6, 30), (2020, 1, 1), (2024, 3, 1), (2025, 1, 2), (2029, 7, 1))):
+        for form in ('method', FORMS[1 + j % (len(FORMS) - 1)], 'ctor'):
+            inp = {'lat': float(ctx.rng.uniform(-90, 90)), 'lon': float(ctx.rng.uniform(-180, 180)),
+                   'h': float(ctx.rng.uniform(-1, 850)), 'date': list(ymd), 'form': form}
+            ctx.check('field', inp, _wrap(o_field, inp), nontrivial_key=(ymd, form))
     for row in _test_tables():
         ctx.check('table', row, _wrap(o_table, row), nontrivial_key=(row['table'], row['date'], row['lat'], row['lon'], row['h']))
     ds = [2015.0, 2019.9999, 2020.0, 2024.9999, 2025.0, 2030.0, 2035.5] + [float(x) for x in np.round(ctx.rng.uniform(2015, 2031, 40 * scale), 3)]
